@@ -325,7 +325,8 @@ def c09(tier, seed, only=None):
 def c08(tier, seed, only=None):
     t0 = time.time()
     mons = ["vx.monitors.order.OrderIndependent"]
-    base = [s for s in gen.f2_all(tier) if not gen.is_big(s) or tier != "quick"]
+    base = [s for s in gen.f2_all(tier)
+            if tier != "quick" or not (gen.is_huge(s) or "-m3-" in s.name or "-m4-" in s.name)]
     scns = gen.fixed_outcome_scenarios(base, uniq=False, max_full=4 if tier == "quick" else 6)
     scns += gen.fixed_outcome_scenarios(gen.f6_publish(tier), uniq=True, max_full=3 if tier == "quick" else 6)
     jobs = [job(s, dict(horizon=60, max_states=20000), mons) for s in scns]
